@@ -118,6 +118,18 @@ type serverConn struct {
 
 	closer chan struct{}
 
+	// selfReset remembers the streams this endpoint reset, or refused, itself.
+	// The peer may not have seen the RST_STREAM yet, so frames that are still in
+	// flight on such a stream are not an error on its part: they are dropped,
+	// after being accounted for in the HPACK and flow-control state they touch
+	// (RFC 7540 5.1, "closed"). It follows the closed-stream ring, so it is
+	// bounded the same way, and only the stream loop touches it.
+	selfReset map[uint32]struct{}
+
+	// discardLeft holds the unfinished tail of a header block that is being
+	// decoded only to keep the HPACK table in step with the peer.
+	discardLeft []byte
+
 	debug  bool
 	logger fasthttp.Logger
 }
@@ -453,6 +465,7 @@ func (sc *serverConn) handleStreams() {
 			closedRing = append(closedRing, id)
 		} else {
 			delete(closedStrms, closedRing[closedOldest])
+			delete(sc.selfReset, closedRing[closedOldest])
 			closedRing[closedOldest] = id
 			closedOldest = (closedOldest + 1) % closedStrmsCap
 		}
@@ -722,6 +735,17 @@ loop:
 					switch fr.Type() {
 					case FramePriority, FrameWindowUpdate, FrameResetStream:
 					default:
+						if _, ours := sc.selfReset[fr.Stream()]; ours {
+							// We closed this stream, and the peer had this
+							// frame on its way before it could know.
+							if derr := sc.discardFrame(fr); derr != nil {
+								sc.writeError(nil, derr)
+								break loop
+							}
+
+							continue
+						}
+
 						sc.writeGoAway(fr.Stream(), StreamClosedError, "frame on closed stream")
 					}
 
@@ -741,6 +765,16 @@ loop:
 					}
 
 					sc.writeReset(fr.Stream(), RefusedStreamError)
+
+					// The stream is refused, but its header block has changed the
+					// peer's HPACK table and its DATA has used the connection
+					// window all the same, and more of it may be on its way.
+					markClosed(fr.Stream())
+
+					if derr := sc.discardFrame(fr); derr != nil {
+						sc.writeError(nil, derr)
+						break loop
+					}
 
 					continue
 				}
@@ -901,6 +935,18 @@ func (sc *serverConn) consumeRecvWindow(strm *Stream, fr *FrameHeader, n int) {
 		sc.writeWindowUpdate(strm.ID(), n)
 	}
 
+	sc.creditConnWindow(n)
+}
+
+// creditConnWindow accounts for n octets of DATA against the connection-level
+// receive window and tops it up once it is half used. Every DATA frame counts,
+// whatever becomes of its stream (RFC 7540 6.9): one that is dropped without
+// being counted is window the peer never gets back.
+func (sc *serverConn) creditConnWindow(n int) {
+	if n <= 0 {
+		return
+	}
+
 	sc.currentWindow -= int32(n)
 	if sc.currentWindow < sc.maxWindow/2 {
 		inc := sc.maxWindow - sc.currentWindow
@@ -908,6 +954,54 @@ func (sc *serverConn) consumeRecvWindow(strm *Stream, fr *FrameHeader, n int) {
 
 		sc.writeWindowUpdate(0, int(inc))
 	}
+}
+
+// discardFrame drops a frame that arrived for a stream this endpoint has
+// already reset or refused, keeping the connection-wide state in step.
+func (sc *serverConn) discardFrame(fr *FrameHeader) error {
+	switch fr.Type() {
+	case FrameData:
+		sc.creditConnWindow(fr.Len())
+	case FrameHeaders, FrameContinuation:
+		return sc.discardHeaderBlock(fr, fr.Body().(FrameWithHeaders).Headers(), 0)
+	}
+
+	return nil
+}
+
+// discardHeaderBlock runs (the rest of) a header block through the HPACK
+// decoder and throws the fields away. The block belongs to a stream that is
+// not going to be served, but the dynamic table is the connection's: skipping
+// the block would leave every later request decoding against the wrong table.
+func (sc *serverConn) discardHeaderBlock(fr *FrameHeader, fragment []byte, fieldsProcessed int) error {
+	blockStart := fr.Type() != FrameContinuation && len(sc.discardLeft) == 0 && fieldsProcessed == 0
+
+	b := append(sc.discardLeft, fragment...)
+	sc.discardLeft = b[:0]
+
+	hf := AcquireHeaderField()
+	defer ReleaseHeaderField(hf)
+
+	for len(b) > 0 {
+		pb := b
+
+		var err error
+
+		b, err = sc.dec.nextField(hf, blockStart, fieldsProcessed, b)
+		if err != nil {
+			if errors.Is(err, ErrUnexpectedSize) && !fr.Flags().Has(FlagEndHeaders) {
+				sc.discardLeft = append(sc.discardLeft, pb...)
+
+				return nil
+			}
+
+			return NewGoAwayError(CompressionError, err.Error())
+		}
+
+		fieldsProcessed++
+	}
+
+	return nil
 }
 
 func (sc *serverConn) writeWindowUpdate(id uint32, inc int) {
@@ -923,6 +1017,12 @@ func (sc *serverConn) writeWindowUpdate(id uint32, inc int) {
 }
 
 func (sc *serverConn) writeReset(strm uint32, code ErrorCode) {
+	if sc.selfReset == nil || len(sc.selfReset) > 4*closedStrmsCap {
+		sc.selfReset = make(map[uint32]struct{}, closedStrmsCap)
+	}
+
+	sc.selfReset[strm] = struct{}{}
+
 	r := AcquireFrame(FrameResetStream).(*RstStream)
 
 	fr := AcquireFrameHeader()
@@ -1103,6 +1203,8 @@ func (sc *serverConn) handleFrame(strm *Stream, fr *FrameHeader) error {
 		strm.recvBody += len(data)
 
 		if sc.maxRequestBodySize > 0 && strm.recvBody > sc.maxRequestBodySize {
+			sc.creditConnWindow(fr.Len())
+
 			return NewResetStreamError(EnhanceYourCalm, "request body is too large")
 		}
 
@@ -1141,7 +1243,7 @@ func (sc *serverConn) handleFrame(strm *Stream, fr *FrameHeader) error {
 	return err
 }
 
-func (sc *serverConn) handleHeaderFrame(strm *Stream, fr *FrameHeader) error {
+func (sc *serverConn) handleHeaderFrame(strm *Stream, fr *FrameHeader) (err error) {
 	// A second header block on a stream whose request headers are already done
 	// is a trailer, which must carry both END_STREAM and END_HEADERS. Its
 	// fields join the request headers, which is the nearest thing fasthttp's
@@ -1178,9 +1280,21 @@ func (sc *serverConn) handleHeaderFrame(strm *Stream, fr *FrameHeader) error {
 
 	req := &strm.ctx.Request
 
-	var err error
-
 	fieldsProcessed := 0
+
+	// A malformed field ends the request, not the header block: the fields after
+	// it still update the HPACK table the whole connection shares, so they are
+	// decoded, and dropped, before the stream error is reported.
+	defer func() {
+		var h2err Error
+		if err != nil && errors.As(err, &h2err) && h2err.frameType == FrameResetStream && len(b) > 0 {
+			strm.previousHeaderBytes = strm.previousHeaderBytes[:0]
+
+			if derr := sc.discardHeaderBlock(fr, b, fieldsProcessed+1); derr != nil {
+				err = derr
+			}
+		}
+	}()
 
 	for len(b) > 0 {
 		pb := b
